@@ -110,7 +110,7 @@ def _tables(rng, kind, base):
 def _noise_op(rng, kind, base, i):
     op = dict(op='noise', kind=kind)
     if kind == 'chi2':
-        op.update(mean=float(base))
+        op.update(mean=float(base), ignored_args=bool(rng.random() < 0.3))
     elif kind in ('gaussian', 'normal-alias', 'truncated'):
         r = rng.random()
         mean = 0.0 if r < 0.1 else (-base if r < 0.3 else base)
@@ -365,6 +365,9 @@ def call_noise(fr, op):
     """Drive the real API for one noise op; returns the returned array."""
     k = op['kind']
     if k == 'chi2':
+        if op.get('ignored_args'):
+            # "noise_type='chi2' will only use x_mean and ignore other parameters": a caller re-using one argument list for all types
+            return fr.add_noise(op['mean'], op['mean'] * 0.37 + 1.0, x_min=op['mean'] * 0.5, noise_type='chi2')
         return fr.add_noise(x_mean=op['mean']) if op['mean'] > 1 else fr.add_noise(op['mean'], noise_type='chi2')
     if k == 'gaussian':
         return fr.add_noise(x_mean=op['mean'], x_std=op['std'], noise_type='gaussian')
